@@ -33,10 +33,10 @@ Proof.
 Qed.
 
 (* ---- generated decisions (these lemmas are where a change of the Python conditions surfaces) ---- *)
-Lemma should_close_false sc po up ex pp bu ta :
-  should_close_gen sc po up ex pp bu ta = false ->
-  sc = false /\ po = false /\ up = false /\ ex = false /\ bu = false /\ ta = false.
-Proof. unfold should_close_gen. destruct sc, po, up, ex, pp, bu, ta; cbn; intros H; try discriminate; repeat split. Qed.
+Lemma should_close_false sc po up ex pp bu ta pl :
+  should_close_gen sc po up ex pp bu ta pl = false ->
+  sc = false /\ po = false /\ up = false /\ ex = false /\ bu = false /\ ta = false /\ pl = false.
+Proof. unfold should_close_gen. destruct sc, po, up, ex, pp, bu, ta, pl; cbn; intros H; try discriminate; repeat split. Qed.
 
 Lemma release_closes_false f a p : release_closes_gen f a p = false -> f = false /\ a = false /\ p = false.
 Proof. unfold release_closes_gen. destruct f, a, p; cbn; intros H; try discriminate; repeat split. Qed.
@@ -46,6 +46,9 @@ Proof. unfold release_closes_gen. destruct f, p; reflexivity. Qed.
 
 Lemma get_reuses_connected c p a k : get_reuses_gen c p a k = true -> c = true.
 Proof. unfold get_reuses_gen. destruct c; [reflexivity|discriminate]. Qed.
+
+Lemma get_reuses_clean c p a k : get_reuses_gen c p a k = true -> p = false.
+Proof. unfold get_reuses_gen. destruct c, p; cbn; intros H; try discriminate; reflexivity. Qed.
 
 Lemma response_eof_releases_true c u : response_eof_releases_gen c u = true -> c = false /\ u = false.
 Proof. unfold response_eof_releases_gen. destruct c, u; cbn; intros H; try discriminate; split; reflexivity. Qed.
@@ -174,14 +177,11 @@ Proof.
   - destruct (n <? rem); inv_some.
     + apply keyed_set_conn; [apply keyed_set_payl; exact K|cbn; apply K].
     + assert (K2 : keyed (set_conn (set_payl s pid (set_p_cb (set_p_eof (set_p_items (s_pay s pid) (p_items (s_pay s pid) ++ [(id, tg)])) true) None))
-                           (g_c g) (set_c_ptail (set_c_pst (s_conn s (g_c g)) PSHead) (rem <? n)))).
+                           (g_c g) (set_c_pst (s_conn s (g_c g)) PSHead))).
       { apply keyed_set_conn; [apply keyed_set_payl; exact K|cbn; apply K]. }
-      assert (K3 : keyed (if rem <? n then surplus_tail (set_conn (set_payl s pid (set_p_cb (set_p_eof (set_p_items (s_pay s pid) (p_items (s_pay s pid) ++ [(id, tg)])) true) None))
-                           (g_c g) (set_c_ptail (set_c_pst (s_conn s (g_c g)) PSHead) (rem <? n))) (s_conn s (g_c g))
-                          else set_conn (set_payl s pid (set_p_cb (set_p_eof (set_p_items (s_pay s pid) (p_items (s_pay s pid) ++ [(id, tg)])) true) None))
-                           (g_c g) (set_c_ptail (set_c_pst (s_conn s (g_c g)) PSHead) (rem <? n)))).
-      { destruct (rem <? n); [apply keyed_surplus_tail|]; exact K2. }
-      cbn [p_cb set_p_items]. destruct (p_cb (s_pay s pid)); [apply keyed_response_eof|]; exact K3.
+      match goal with |- keyed (if _ then surplus_tail (set_conn ?s3 _ _) _ else _) => assert (K3 : keyed s3) end.
+      { cbn [p_cb set_p_items]. destruct (p_cb (s_pay s pid)); [apply keyed_response_eof|]; exact K2. }
+      destruct (rem <? n); [|exact K3]. apply keyed_surplus_tail. apply keyed_same; [exact K3|split; reflexivity].
 Qed.
 
 Lemma keyed_proc_tok cf s g tk tg s' g' : keyed s -> proc_tok cf s g tk tg = Some (s', g') -> keyed s'.
